@@ -1399,13 +1399,23 @@ class QueryBuilder(Selectable, Term):  # type:ignore[misc]
         base_tables = self._from + [self._update_table] + self._with
         join.validate(base_tables, self._joins)  # type:ignore[arg-type]
 
-        table_in_query = any(
-            isinstance(clause, Table) and join.item in base_tables for clause in base_tables
-        )
-        if isinstance(join.item, Table) and join.item.alias is None and table_in_query:
-            # On the odd chance that we join the same table as the FROM table and don't set an alias
-            # FIXME only works once
-            join.item.alias = join.item._table_name + "2"
+        tables_in_query = [
+            source
+            for source in base_tables + [j.item for j in self._joins]
+            if isinstance(source, Table)
+        ]
+        if (
+            isinstance(join.item, Table)
+            and join.item.alias is None
+            and any(join.item == table for table in tables_in_query)
+        ):
+            # On the odd chance that we join a table that is in the statement already and don't set an alias:
+            # give it the next free one - <name>2, <name>3, ...
+            names_in_use = {table.get_table_name() for table in tables_in_query}
+            number = 2
+            while "%s%d" % (join.item._table_name, number) in names_in_use:
+                number += 1
+            join.item.alias = "%s%d" % (join.item._table_name, number)
 
         self._joins.append(join)
 
